@@ -316,8 +316,56 @@ class _Flattener:
                         return pre + body
                     body = _replace_returns(body, target if kind == "assign" else None)
                     return pre + [_one_shot(body, s)]
+        # a helper call nested in an unconditionally evaluated position of a simple statement (`f(x, helper(y))`) whose body is more than one
+        # `return <expr>`: hoist it into a temporary (`t = helper(y); f(x, t)`) and inline the assignment (analysis-only rewrite)
+        if isinstance(s, (ast.Expr, ast.Assign, ast.AnnAssign, ast.Return, ast.AugAssign)) and getattr(s, "value", None) is not None:
+            h = self._hoist(s, call, stack)
+            if h is not None:
+                out: List[ast.stmt] = []
+                for ps in h:
+                    out += self.stmt(ps, stack, depth)
+                return out
         # expression-level: helpers that are a single `return <expr>`
         return [self.expr_inline(s, stack)]
+
+    def _hoist(self, s: ast.stmt, top: Optional[ast.Call], stack: Tuple[str, ...]) -> Optional[List[ast.stmt]]:
+        me = self
+        found: List[ast.Call] = []
+
+        def scan(e: ast.AST) -> None:
+            if found:
+                return
+            if isinstance(e, (ast.Lambda, ast.ListComp, ast.SetComp, ast.DictComp, ast.GeneratorExp, ast.IfExp)):
+                return
+            if isinstance(e, ast.BoolOp):
+                scan(e.values[0])
+                return
+            if isinstance(e, ast.Call) and e is not top:
+                got = _helper_of(e, me.fn, me.mod)
+                if got is not None and _inlinable(got[0], stack) and not isinstance(got[0].node, ast.AsyncFunctionDef):
+                    body = [x for x in got[0].node.body if not (isinstance(x, ast.Expr) and isinstance(x.value, ast.Constant))]
+                    if not (len(body) == 1 and isinstance(body[0], ast.Return)):
+                        found.append(e)
+                        return
+            for ch in ast.iter_child_nodes(e):
+                scan(ch)
+
+        scan(s.value)  # type: ignore[attr-defined]
+        if not found:
+            return None
+        self.count += 1
+        tmp = f"__hoisted{self.count}"
+        target_call = found[0]
+
+        class R(ast.NodeTransformer):
+            def visit_Call(self, c: ast.Call) -> ast.AST:  # noqa: N802
+                if c is target_call:
+                    return ast.copy_location(ast.Name(id=tmp, ctx=ast.Load()), c)
+                return self.generic_visit(c)
+
+        pre = ast.copy_location(ast.Assign(targets=[ast.Name(id=tmp, ctx=ast.Store())], value=target_call, lineno=s.lineno), s)
+        s.value = R().visit(s.value)  # type: ignore[attr-defined]
+        return [ast.fix_missing_locations(pre), s]
 
     def expr_inline(self, s: ast.stmt, stack: Tuple[str, ...]) -> ast.stmt:
         me = self
